@@ -26,7 +26,7 @@ def explore_model(pid: str, cfg_name: str, tier: str, seed: int, **kw: Any) -> D
     monitors = plan.pop("monitors")
     pre = plan.pop("pre", None)
     exkw: Dict[str, Any] = dict(
-        keys=cfg.keys(tier),
+        keys=cfg.keys(tier, env),
         max_depth=cfg.depth,
         max_states=cfg.max_states(tier),
         seed=seed,
